@@ -17,6 +17,8 @@ pub mod helpers;
 pub mod local;
 pub mod rpc;
 pub mod rpc_client;
+#[cfg(maidsafe_safe_network_verif)]
+pub mod verif;
 
 pub const DEFAULT_NODE_STARTUP_CONNECTION_TIMEOUT_S: u64 = 300;
 
